@@ -434,7 +434,7 @@ func (p *parser) readHex(b byte) (i byte) {
 	case 'A', 'B', 'C', 'D', 'E', 'F':
 		i = b - 'A' + 10
 	default:
-		panic(fmt.Sprintf("0x%02x (%c) is not a valid hexadecimal character", b, b))
+		panic(fmt.Errorf("0x%02x (%c) is not a valid hexadecimal character", b, b))
 	}
 	return
 }
@@ -508,7 +508,7 @@ top:
 	}
 	return string(buf)
 fail:
-	panic(fmt.Sprintf("0x%02x (%c) is not a valid escaped character", b, b))
+	panic(fmt.Errorf("0x%02x (%c) is not a valid escaped character", b, b))
 }
 
 func (p *parser) readStr(term byte) string {
